@@ -405,6 +405,23 @@ func runScenario(sc *Scenario) (res *result) {
 				"at quiescence %d bytes of connection credit are lost: advertised %d, peer's window %d, held back by the client %d",
 				o.cConnInit-o.cConnWin-res.qobs.InUnsent, o.cConnInit, o.cConnWin, res.qobs.InUnsent), len(res.log)})
 		}
+		if res.qobs != nil && res.idx < 0 && len(o.pending) == 0 {
+			// settings persist until changed: what the client holds as the peer's limits
+			// (hook snapshot) is what the peer's acknowledged SETTINGS frames add up to
+			wantStreams := o.maxStreams
+			if wantStreams == unlimited {
+				wantStreams = 1000 // the transport's own cap while the peer never sent the field
+				if o.ackEvents == 0 {
+					wantStreams = 100
+				}
+			}
+			q := res.qobs
+			if q.MaxFrame != o.maxFrame || q.InitWin != o.initWin || q.MaxStreams != wantStreams {
+				res.endClasses = append(res.endClasses, endViolation{clsLimitsDiverge, fmt.Sprintf(
+					"at quiescence the client holds MAX_FRAME_SIZE=%d INITIAL_WINDOW_SIZE=%d MAX_CONCURRENT_STREAMS=%d, the acknowledged SETTINGS frames say %d / %d / %d",
+					q.MaxFrame, q.InitWin, q.MaxStreams, o.maxFrame, o.initWin, wantStreams), len(res.log)})
+			}
+		}
 		if len(o.pending) > 0 {
 			res.endClasses = append(res.endClasses, endViolation{clsSettingsNotAcked, fmt.Sprintf(
 				"%d SETTINGS frames unacknowledged after the final PING ack", len(o.pending)), len(res.log)})
@@ -535,6 +552,8 @@ func shapeOf(res *result, cls int, at int) string {
 			return fmt.Sprintf("race-open-vs-ack,strict=%v", sc.Strict)
 		}
 		return fmt.Sprintf("no-race,strict=%v,peer-lowered-maxstreams=%v", sc.Strict, o.loweredStreams)
+	case clsLimitsDiverge:
+		return fmt.Sprintf("settings-frames-acked=%d", o.ackEvents)
 	case clsStreamStalled:
 		return fmt.Sprintf("caller-initwin=%s", ciw)
 	case clsClientKilledConn, clsConnDropped, clsConnCredit:
